@@ -14,11 +14,27 @@ R2  spec->code: TLC enumerates function x length 0..70 x data variant (salted in
     +-1..5) and compares bit for bit (NaN by IsNaN, sign of zero by bits; Euclidean norms at
     exponents 2^-1040 .. 2^1010 against the exact value with the spec's rounding bound in
     big.Rat) - in the default (assembly), noasm and safe builds.
+    Extension (coverage-driven, W15): SliceExt.tla states the functions of cmplxs and floats that have no
+    integer-valued scalar loop - moduli on Pythagorean pairs (Abs, Norm / Distance for L = 1, 2, inf and a
+    general L on cubes summing to a cube), Count / Find / Equal / Same / HasNaN / EqualFunc / EqualLengths /
+    EqualApprox (inequalities decided on squared integers; exact ties where hypot may round are "open"),
+    Span (l + i step on Gaussian integers, documented endpoints), LogSpan (powers of two: exact power within a
+    derived bound, documented endpoints, the zero / negative clauses), MaxAbs / MinAbs / NearestIdx with NaN and
+    infinite entries, LogSumExp (classes, one finite element, shift invariance), SumCompensated (exact data
+    and the cancellation pattern: better than the plain sum), NearestIdxForSpan's special cases, the
+    documented panics of 57 functions as a decision table over argument lengths 0..3, the strided ...To
+    kernels and LinfDist of internal/asm called directly (no exported caller exists), internal/math32 and
+    internal/cmplx64.  kern.go binds the existing unit-stride families to the f32 / c64 / c128 / f64 kernels
+    that no exported function reaches.  CScalar.tla: cmplxs/cscalar (tolerance predicates on Gaussian
+    quarter-integers, Round / RoundEven, Same, ParseWithNA on a token grid of the documented grammar) and the
+    number grammar of floats/scalar.ParseWithNA; floats/scalar itself through X01's ScalarFloat.tla, reused
+    unchanged in all three builds.  A call that kills the process (memory fault inside an assembly kernel) is
+    executed alone in a process of its own (isolated()).
 """
 import json
 import os
 
-from vlib import SPECS
+from vlib import SPECS, sh, GOENV
 
 G = lambda *a: "{" + ",".join('"%s"' % x for x in a) + "}"
 
@@ -55,31 +71,139 @@ LONGLIN = G("AddTo", "AddScaled", "ScaleTo", "Sum", "Dot", "Norm1", "Norm2")   #
 LONG = [("long-257", 257, LONGF), ("long-1000", 1000, LONGF), ("long-4099", 4099, LONGF), ("long-10000", 10000, LONGLIN)]
 
 
+# ---- extension (SliceExt.tla): functions of cmplxs / floats without an integer scalar loop, the
+# documented panics, kernels of internal/asm without an exported caller, internal/math32+cmplx64
+# name, functions, (nmax, nvar) quick, (nmax, nvar) thorough
+XGROUPS = [
+    ("cx-moduli", G("CAbs", "CDist1", "CDistInf", "CDist2", "CDistL3", "CNorm1", "CNormInf", "CNormL3"), (70, 6), (70, 24)),
+    ("cx-index-bool", G("CCount", "CFind", "CEqualSame", "CEqualApprox", "CReverse", "CMaxAbsV", "CMinAbsV", "CNearestIdx"),
+     (70, 10), (70, 40)),
+    ("spans", G("CSpan", "CSpanEnds", "CSpanEndsFin", "CLogSpan", "CLogSpanZ", "LogSpan", "LogSpanZ"), (70, 9), (70, 36)),
+    ("floats-more", G("EqualApprox", "LogSumExp", "SumComp", "NormL3", "DistL3", "NISpanInf"), (70, 12), (70, 48)),
+    ("kernels-to", G("KScalIncTo", "KAxpyIncTo", "KCScalIncTo", "KCAxpyIncTo", "KLinfDist"), (70, 11), (70, 44)),
+    # the length field enumerates an argument grid here (lengths 0..3 of up to three slices, 9 x 9 special values)
+    ("grids", G("NISpan2", "EqualLens", "Panics", "M32"), (80, 60), (80, 60)),
+]
+
+
+# calls that the harness does not execute in its main process because a fault in them kills it
+# (harness/internal/slices isoCall): (spec function, length, binding, start offset, mode)
+ISOLATED = [("CAddScaledTo", 1, "c64.AxpyUnitaryTo", 0, "fresh")]
+
+
+def isolated(ctx, bins, builds, cases):
+    """One spec-emitted call per process. A process killed by a memory fault inside the gonum kernel (twice
+    in a row) is a violation whose replay object is that single case; any other failure of the process is
+    the machinery's (UNDECIDED)."""
+    for fn, n, bind, off, mode in ISOLATED:
+        case = None
+        for line in open(cases):
+            d = json.loads(line)
+            if d["f"] == fn and d["n"] == n and not d.get("skip"):
+                case = d
+                break
+        if case is None:
+            continue
+        case.update(only=bind, off=off, mode=mode)
+        one = os.path.join(ctx.work, "iso-%s.ndjson" % bind)
+        with open(one, "w") as fh:
+            fh.write(json.dumps(case) + "\n")
+        for bn, _ in builds:
+            faults = 0
+            cmd = [bins[bn], "replay", "slices", "-in", one, "-seed", str(ctx.seed), "iso"]
+            for attempt in range(2):
+                rc, out, dt = sh(cmd, 600, env=dict(GOENV))
+                if rc != 0 and is_fault(out, rc):
+                    faults += 1
+                    ctx.stages.append({"stage": "R2 isolated %s n=%d [%s] attempt %d" % (bind, n, bn, attempt + 1), "kind": "spec->code",
+                                       "cases": 1, "process_killed_by_memory_fault": True, "rc": rc, "seconds": round(dt, 1)})
+                    continue
+                # the process survived (or failed for another reason): the ordinary replay judges the result
+                ctx.replay(bins[bn], "slices", one, ["iso"], name="R2 isolated %s n=%d [%s]" % (bind, n, bn))
+                break
+            if faults == 2:
+                ctx.cases += 1
+                ctx.traces += 1
+                ctx.violation("slices:%s:fault" % bind,
+                              "%s n=%d off=%d mode=%s [%s build]: the call on valid arguments kills the process with a "
+                              "memory fault (SIGSEGV inside the kernel; reproduced twice, each time alone in a fresh process)"
+                              % (fn, n, off, mode, bn),
+                              {"area": "slices", "args": ["iso"], "failure": {"sig": "slices:%s:fault" % bind, "case": case}})
+
+
+def is_fault(text, rc=0):
+    """The harness process was killed from inside: a signal (SIGSEGV, or SIGTRAP / SIGBUS once the runaway kernel
+    has overwritten the heap) or a fatal error of the Go runtime.  Its own errors exit with status 1 and a message."""
+    return rc < 0 or rc > 128 or "SIGSEGV" in text or "fatal error:" in text or "unexpected fault address" in text
+
+
+def load_proposed(ctx):
+    """Findings of this extension that are not (yet) in known_findings.json (read-only for the builder) are
+    listed, ready to paste, in C08.proposed_findings.json.  They are NOT honoured by default: the check
+    reports them as violations.  With VERIF_C08_ACCEPT_PROPOSED=1 they are treated like known findings (exact
+    signatures), which shows that nothing else fails."""
+    p = os.path.join(os.path.dirname(os.path.abspath(__file__)), "C08.proposed_findings.json")
+    if os.environ.get("VERIF_C08_ACCEPT_PROPOSED") == "1" and os.path.exists(p):
+        have = {k.get("id") for k in ctx.known}
+        for k in json.load(open(p)).get("findings", []):
+            if k.get("id") not in have:
+                ctx.known.append(k)
+
+
 def run(ctx):
     os.makedirs(os.path.join(SPECS, "lib"), exist_ok=True)
+    load_proposed(ctx)
     thorough = ctx.tier == "thorough"
     builds = [("default", ""), ("noasm", "noasm"), ("safe", "safe")]
-    bins = {n: ctx.build(t) for n, t in builds}
+    bins = dict(zip([n for n, _ in builds], ctx.parallel([(lambda t=t: ctx.build(t)) for _, t in builds], width=3)))
     seed = ctx.seed % 1000
 
     # ---- R1 ---------------------------------------------------------------
     n2, n1 = (4, 6) if thorough else (3, 5)
-    ctx.tlc("slices/SliceAlias.tla", "slices/SliceAlias.cfg", subst=dict(N2=n2, N1=n1), workers=4,
-            name="R1 aliasing lemma (dst aliases a source, lengths<=%d/%d), VecIdx lemma, IEEE table laws" % (n2, n1))
-    ctx.tlc("slices/SlicePrims.tla", "slices/SlicePrims_model.cfg", workers=4,
-            subst=dict(NMAX=40 if thorough else 24, NVAR=16 if thorough else 8, SEED=seed),
-            name="R1 sums of the emitted data are independent of accumulation order")
+    r1 = [lambda: ctx.tlc("slices/SliceAlias.tla", "slices/SliceAlias.cfg", subst=dict(N2=n2, N1=n1), workers=4,
+                          name="R1 aliasing lemma (dst aliases a source, lengths<=%d/%d), VecIdx lemma, IEEE table laws" % (n2, n1)),
+          lambda: ctx.tlc("slices/SlicePrims.tla", "slices/SlicePrims_model.cfg", workers=4,
+                          subst=dict(NMAX=40 if thorough else 24, NVAR=16 if thorough else 8, SEED=seed),
+                          name="R1 sums of the emitted data are independent of accumulation order")]
 
     # ---- R2 ---------------------------------------------------------------
-    def replay_all(cases, label):
+    def replay_all(cases, label, area="slices", args=()):
         for bn, _ in builds:
-            ctx.replay(bins[bn], "slices", cases, name="R2 replay %s [%s]" % (label, bn))
+            ctx.replay(bins[bn], area, cases, list(args), name="R2 replay %s [%s]" % (label, bn))
 
-    for name, fns, q, t, extra in GROUPS:
+    def group(name, fns, q, t, extra):
         nmax, nvar = t if thorough else q
         cases = ctx.gen("slices/SlicePrims.tla", "slices/SlicePrims_gen.cfg", name="R2 gen " + name,
                         subst=dict(FNS=fns, NMIN=0, NMAX=nmax, NVAR=nvar, SEED=seed, EXTRA=extra))
         replay_all(cases, name)
+        if name == "complex":
+            isolated(ctx, bins, builds, cases)
+
+    def xgroup(name, fns, q, t):
+        nmax, nvar = t if thorough else q
+        # the module's ASSUMEd lemmas (R1) are evaluated by TLC at the start of every generator run
+        cases = ctx.gen("slices/SliceExt.tla", "slices/SliceExt_gen.cfg", name="R1+R2 gen ext " + name,
+                        subst=dict(FNS=fns, NMIN=0, NMAX=nmax, NVAR=nvar, SEED=seed))
+        replay_all(cases, "ext " + name)
+
+    def cscalar(mode):
+        cases = ctx.gen("slices/CScalar.tla", "slices/CScalar.cfg", subst=dict(MODE=mode),
+                        name="R1+R2 gen cscalar %s (lemmas checked as ASSUMEs)" % mode)
+        replay_all(cases, "cscalar " + mode, area="cscalar", args=["float"] if mode == "fparse" else [])
+
+    def scalarfloat(mode):
+        # floats/scalar: the specification of the extra check X01 (specs/misc/ScalarFloat.tla, bound by
+        # harness/internal/misc) is reused unchanged, here in all three build configurations
+        cases = ctx.gen("misc/ScalarFloat.tla", "misc/ScalarFloat.cfg", subst=dict(MODE=mode, WIDE="TRUE" if thorough else "FALSE"),
+                        name="R1+R2 gen floats/scalar %s (X01 ScalarFloat.tla)" % mode)
+        replay_all(cases, "floats/scalar " + mode, area="scalar")
+
+    jobs = list(r1)
+    jobs += [(lambda g=g: group(*g)) for g in GROUPS]
+    jobs += [(lambda g=g: xgroup(*g)) for g in XGROUPS]
+    jobs += [(lambda m=m: cscalar(m)) for m in ("eq", "round", "parse", "fparse")]
+    jobs += [(lambda m=m: scalarfloat(m)) for m in ("ulp", "round", "eq", "nan", "parse")]
+    ctx.parallel(jobs, width=4)
     if thorough:
         for name, fns in (("pairs-all", PAIRS_ALL), ("pairs-strided-all", PAIRS_STRIDED_ALL)):
             cases = ctx.gen("slices/SlicePrims.tla", "slices/SlicePrims_gen.cfg", name="R2 gen " + name,
@@ -96,23 +220,37 @@ def run(ctx):
         "spec's value codes (NaN, +-Inf, -0, m*2^e by math.Ldexp) and the bitwise / big.Rat comparison are trusted",
         "internal/asm kernels are reached through their exported callers (floats, blas/gonum level 1); kernels "
         "with no exported unit-stride caller are not exercised directly",
-        "the predicate passed to Find/Count is v > 0 on both sides",
+        "the predicate passed to Find/Count is v > 0 on both sides (cmplxs: real(z) > 0; EqualFunc: |a| = |b| for floats, equal "
+        "real parts for cmplxs): the harness mirrors the predicates the specification names",
+        "moduli, 1-norms, max-norms, general-L norms, LogSpan interiors and LogSumExp are compared with the specification's exact "
+        "value within the bound it prints (a few units of 2^-52 resp. 2^-23 relative, derived in SliceExt.tla), in math/big",
+        "internal/asm, internal/math32 and internal/cmplx64 are imported directly (the harness module path lies under "
+        "gonum.org/v1/gonum/); kernels are documented by the loop in their doc comment",
+        "floats/scalar is judged by specs/misc/ScalarFloat.tla and its binding harness/internal/misc (extra check X01), unchanged",
+        "an isolated call that dies with SIGSEGV twice, alone in a fresh process, is counted as a violation of that call",
     ]
     return ctx.finish(
         rule="one case = one gonum call on operands printed by the specification (one function, length, data "
              "variant, start offset 0..7, destination fresh or aliasing a source) whose result was compared with "
-             "the specification's expected value; non-trivial = length > 0",
+             "the specification's expected value; non-trivial = length > 0; cscalar / floats/scalar tables: one case = one point "
+             "of a table (non-trivial = the documentation fixes the answer)",
         exhaustive=False)
 
 
 def replay(ctx, path):
     os.makedirs(os.path.join(SPECS, "lib"), exist_ok=True)
+    load_proposed(ctx)
     d = json.load(open(path))["data"]
     one = os.path.join(ctx.work, "one.ndjson")
     with open(one, "w") as fh:
         fh.write(json.dumps(d["failure"]["case"]) + "\n")
     # the failing build is recorded in the stage name of the failure message
-    rc = 0
     for tags in ("", "noasm", "safe"):
-        ctx.replay(ctx.build(tags), d["area"], one, d["args"], confirm=False, name="replay [%s]" % (tags or "default"))
+        binary = ctx.build(tags)
+        if "iso" in d["args"]:
+            rc, out, _ = sh([binary, "replay", d["area"], "-in", one, "-seed", str(ctx.seed)] + list(d["args"]), 600, env=dict(GOENV))
+            if rc != 0 and is_fault(out, rc):
+                ctx.violation(d["failure"]["sig"], "the isolated call killed the process with a memory fault [%s build]" % (tags or "default"), d)
+                continue
+        ctx.replay(binary, d["area"], one, d["args"], confirm=False, name="replay [%s]" % (tags or "default"))
     return ctx.finish()
